@@ -23,7 +23,7 @@ variable (sz : Kind → Nat)
 
 /-- everything owned by released slots aside, only trusted-proxies handles own anything -/
 theorem owned_of_allReleased : ∀ (slots : List Slot),
-    (∀ sl ∈ slots, sl.released = true ∨ ∃ o i, sl.h = .tproxies o i) →
+    (∀ sl ∈ slots, sl.released = true ∨ (∃ o i, sl.h = .tproxies o i) ∨ sl.h = .alias) →
       ∀ x ∈ ownedSlots sz slots, documentedLeak x = true := by
   intro slots
   induction slots with
@@ -32,13 +32,15 @@ theorem owned_of_allReleased : ∀ (slots : List Slot),
     intro hall x hx
     simp only [ownedSlots, List.mem_append] at hx
     rcases hx with hx | hx
-    · rcases hall sl (List.mem_cons_self) with hr | ⟨o, i, hh⟩
+    · rcases hall sl (List.mem_cons_self) with hr | ⟨o, i, hh⟩ | hal
       · simp [hr] at hx
       · split at hx
         · simp at hx
         · rw [hh] at hx
           simp only [owns, List.mem_cons, List.not_mem_nil, or_false] at hx
           rcases hx with hx | hx <;> subst hx <;> simp [documentedLeak]
+      · rw [hal] at hx
+        split at hx <;> simp [owns] at hx
     · exact ih (fun s hs => hall s (List.mem_cons_of_mem _ hs)) x hx
 
 /-- **protocol_safe.**  If the caller follows the protocol, then after the whole call sequence
@@ -181,6 +183,11 @@ example : (run sz8 {} [.objNew .action true, .filterNew 0 true, .bufNew [1] 1, .
 /-- … but with a NULL filter the buffer is NOT consumed (the function duplicates): both must be released -/
 example : FollowsProtocol sz8 [.objNew .action false, .filterNew 0 false, .bufNew [1] 1, .filterFeed 1 2 [], .bufDrop 2, .bufDrop 3] := by
   decide
+
+/-- `header_filter_filter(NULL action, list)` gives the caller's own list back: treating it as a returned list and freeing
+it is outside the protocol and a fault (the caller would free its own input) -/
+example : (run sz8 {} [.objNew .action false, .headers 0 [], .hlistFree 1]).heap.faults = [.badHandle 1] := by decide
+example : ¬ FollowsProtocol sz8 [.objNew .action false, .headers 0 [], .hlistFree 1] := by decide
 
 /-- D15, before the repair: `from_vec` forgot a Vec of capacity 10 holding 3 bytes, `into_vec` rebuilt it with
 capacity 3 — the deallocation size differs from the allocation size. -/
